@@ -247,7 +247,15 @@ pub fn decode(t: &mut Tape) -> Case {
                 };
                 let t1 = target(&mut g);
                 let t2 = target(&mut g);
-                vec![jmp(jt, Jmp::CBranch { target: t1, condition: cond }), jmp(jt2, Jmp::Branch(t2))]
+                if bi > 0 && g.t.prob(20) {
+                    // conditional return: the second jump of the block is not a direct branch
+                    let tv = tmp("$Ur", 8);
+                    defs.push(load(instr_tid(bbase + 0x3e, 0), &tv, evar(&var("RSP", 8))));
+                    defs.push(assign(instr_tid(bbase + 0x3e, 1), &var("RSP", 8), ebin(BinOpType::IntAdd, evar(&var("RSP", 8)), econst(8, 8))));
+                    vec![jmp(jt, Jmp::CBranch { target: t1, condition: cond }), jmp(jt2, Jmp::Return(evar(&tv)))]
+                } else {
+                    vec![jmp(jt, Jmp::CBranch { target: t1, condition: cond }), jmp(jt2, Jmp::Branch(t2))]
+                }
             }
             7 => {
                 if bi == 0 {
